@@ -872,6 +872,8 @@ struct Extractor
           }
         }
         bo["el"] = std::move(els);
+        if (B->hasNoReturnElement())
+          bo["nr"] = true;
         if (const Stmt *T = B->getTerminatorStmt())
         {
           json::Object t;
